@@ -588,14 +588,34 @@ Lemma dzl_create_gd f (w : world) : dzl_gd f ->
   dz_create OT ask c f w = (Some (dzl_fresh f), w_set_o OT w (w_o OT w ++ [dzl_init f])).
 Proof. intros [-> | ->]; reflexivity. Qed.
 
-Lemma dzl_tokens_step f fuel input tok layers nblzma chain cep (w : world) :
-  input <> [] -> dz_get_token input = Some tok -> dzl_gd f -> tok = dzl_name f -> (dc_layers c = 0 \/ layers + 1 <= dc_layers c) ->
+(* the Content-Encoding value for a list of formats: names separated by ", " *)
+Definition dzl_ce (fs : list Z) : bytes :=
+  match fs with [] => [] | f :: r => dzl_name f ++ concat (map (fun g => [44; 32]%N ++ dzl_name g) r) end.
+
+Lemma dzl_ce_cons f g r : dzl_ce (f :: g :: r) = dzl_name f ++ [44; 32]%N ++ dzl_ce (g :: r).
+Proof. cbn [dzl_ce map concat]. rewrite <- !app_assoc. reflexivity. Qed.
+
+Lemma dzl_get_token_at sp : forall x s', Forall (fun b => dz_is_sep b = true) sp -> dz_is_sep x = false ->
+  dz_get_token_at (sp ++ x :: s') = Some (length sp, dz_take_tok (x :: s')).
+Proof.
+  intros x s' Hsp Hx. unfold dz_get_token_at.
+  assert (Hd : drop_while dz_is_sep (sp ++ x :: s') = x :: s').
+  { induction Hsp as [|y sp' Hy _ IH]; cbn [app drop_while]; [rewrite Hx; reflexivity|rewrite Hy; exact IH]. }
+  rewrite Hd. rewrite app_length. f_equal. f_equal. lia.
+Qed.
+
+Lemma dzl_name_shape f : dzl_gd f -> exists x n', dzl_name f = x :: n' /\ dz_is_sep x = false /\
+  (forall tl, dz_take_tok (dzl_name f ++ 44%N :: tl) = dzl_name f) /\ dz_take_tok (dzl_name f ++ []) = dzl_name f.
+Proof. intros [-> | ->]; eexists; eexists; (split; [reflexivity|]); (split; [reflexivity|]); split; intros; reflexivity. Qed.
+
+Lemma dzl_tokens_step f fuel input sk tok layers nblzma chain cep (w : world) :
+  input <> [] -> dz_get_token_at input = Some (sk, tok) -> dzl_gd f -> tok = dzl_name f -> (dc_layers c = 0 \/ layers + 1 <= dc_layers c) ->
   dz_tokens OT ask c (S fuel) input layers nblzma chain cep w =
     let chain' := match chain with [] => [dzl_fresh f] | _ :: _ => chain ++ [dzl_fresh f] end in
     let cep' := match chain with [] => f | _ :: _ => cep end in
     let w' := w_set_o OT w (w_o OT w ++ [dzl_init f]) in
-    if (length input <=? S (length tok))%nat then mk_dz_tx OT chain' cep' w' false
-    else dz_tokens OT ask c fuel (skipn (S (length tok)) input) (if negb (dc_layers c =? 0) then layers + 1 else layers) (nblzma + 1) chain' cep' w'.
+    if (length input <=? sk + length tok + 1)%nat then mk_dz_tx OT chain' cep' w' false
+    else dz_tokens OT ask c fuel (skipn (sk + length tok + 1) input) (if negb (dc_layers c =? 0) then layers + 1 else layers) (nblzma + 1) chain' cep' w'.
 Proof.
   intros Hne Htok Hg Hname Hlim. cbn [dz_tokens]. destruct input as [|x input']; [congruence|]. rewrite Htok.
   assert (Hl : negb (dc_layers c =? 0) && (layers + 1 >? dc_layers c) = false).
@@ -612,40 +632,90 @@ Proof.
   destruct chain as [|l0 chain0]; reflexivity.
 Qed.
 
+Lemma dzl_skipn_sep {A} (a b : list A) x y : skipn (length a + length b + 1) (a ++ b ++ x :: y) = y.
+Proof.
+  replace (a ++ b ++ x :: y) with ((a ++ b ++ [x]) ++ y) by (rewrite <- !app_assoc; reflexivity).
+  rewrite skipn_app. rewrite skipn_all2 by (rewrite !app_length; cbn [length]; lia).
+  rewrite !app_length. cbn [length app]. replace (length a + length b + 1 - (length a + (length b + 1)))%nat with O by lia. reflexivity.
+Qed.
+
+(* the token loop on "sp f1, f2, ..., fn" (sp: separator bytes left over from the previous round) *)
+Lemma dzl_tokens_all : forall r f sp fuel layers nblzma chain cep (w : world),
+  Forall (fun b => dz_is_sep b = true) sp -> Forall dzl_gd (f :: r) -> (length (sp ++ dzl_ce (f :: r)) <= fuel)%nat ->
+  (dc_layers c = 0 \/ layers + Z.of_nat (length (f :: r)) <= dc_layers c) ->
+  dz_tokens OT ask c fuel (sp ++ dzl_ce (f :: r)) layers nblzma chain cep w =
+  mk_dz_tx OT (chain ++ map dzl_fresh (f :: r)) (match chain with [] => f | _ :: _ => cep end)
+           (w_set_o OT w (w_o OT w ++ map dzl_init (f :: r))) false.
+Proof.
+  induction r as [|g r IH]; intros f sp fuel layers nblzma chain cep w Hsp Hall Hfuel Hlim;
+    inversion Hall as [|? ? Hg Hall']; subst;
+    destruct (dzl_name_shape f Hg) as (x & n' & Hn & Hx & Htk & Htk0).
+  - (* the last token *)
+    assert (Hce : dzl_ce [f] = dzl_name f) by (cbn [dzl_ce map concat]; apply app_nil_r).
+    rewrite Hce in *. destruct fuel as [|fuel]; [rewrite app_length, Hn in Hfuel; cbn [length] in Hfuel; lia|].
+    assert (H1 : sp ++ dzl_name f <> []) by (rewrite Hn; destruct sp; discriminate).
+    assert (H2 : dz_get_token_at (sp ++ dzl_name f) = Some (length sp, dzl_name f)).
+    { rewrite Hn. rewrite (dzl_get_token_at sp x n' Hsp Hx). rewrite <- Hn. rewrite <- Htk0 at 2. rewrite app_nil_r. reflexivity. }
+    assert (H3 : dc_layers c = 0 \/ layers + 1 <= dc_layers c) by (destruct Hlim as [H|H]; [left; exact H|right; cbn [length] in H; lia]).
+    rewrite (dzl_tokens_step f fuel (sp ++ dzl_name f) (length sp) (dzl_name f) layers nblzma chain cep w H1 H2 Hg eq_refl H3).
+    cbv zeta. replace (length (sp ++ dzl_name f) <=? length sp + length (dzl_name f) + 1)%nat with true
+      by (symmetry; apply Nat.leb_le; rewrite app_length; lia).
+    destruct chain; reflexivity.
+  - rewrite dzl_ce_cons in *. destruct fuel as [|fuel]; [rewrite !app_length, Hn in Hfuel; cbn [length] in Hfuel; lia|].
+    set (inp := sp ++ dzl_name f ++ [44; 32]%N ++ dzl_ce (g :: r)) in *.
+    assert (H1 : inp <> []) by (subst inp; rewrite Hn; destruct sp; discriminate).
+    assert (H2 : dz_get_token_at inp = Some (length sp, dzl_name f)).
+    { subst inp. rewrite Hn. cbn [app]. rewrite (dzl_get_token_at sp x _ Hsp Hx).
+      change (x :: n' ++ 44%N :: 32%N :: dzl_ce (g :: r)) with ((x :: n') ++ 44%N :: 32%N :: dzl_ce (g :: r)). rewrite <- Hn, Htk. reflexivity. }
+    assert (H3 : dc_layers c = 0 \/ layers + 1 <= dc_layers c) by (destruct Hlim as [H|H]; [left; exact H|right; cbn [length] in H; lia]).
+    rewrite (dzl_tokens_step f fuel inp (length sp) (dzl_name f) layers nblzma chain cep w H1 H2 Hg eq_refl H3).
+    cbv zeta.
+    replace (length inp <=? length sp + length (dzl_name f) + 1)%nat with false
+      by (symmetry; apply Nat.leb_gt; subst inp; rewrite !app_length; cbn [length]; lia).
+    assert (Hsk : skipn (length sp + length (dzl_name f) + 1) inp = [32%N] ++ dzl_ce (g :: r)).
+    { subst inp. cbn [app]. apply (dzl_skipn_sep sp (dzl_name f) 44%N (32%N :: dzl_ce (g :: r))). }
+    rewrite Hsk.
+    assert (Hf' : (length ([32%N] ++ dzl_ce (g :: r)) <= fuel)%nat).
+    { assert (0 < length (dzl_name f))%nat by (rewrite Hn; cbn [length]; lia).
+      subst inp. rewrite !app_length in *. cbn [length] in *. lia. }
+    assert (Hlim' : dc_layers c = 0 \/ (if negb (dc_layers c =? 0) then layers + 1 else layers) + Z.of_nat (length (g :: r)) <= dc_layers c).
+    { destruct (dc_layers c =? 0) eqn:E; [left; apply Z.eqb_eq; exact E|]. cbn [negb].
+      destruct Hlim as [H|H]; [left; exact H|right; cbn [length] in *; lia]. }
+    rewrite (IH g [32%N] fuel _ (nblzma + 1) _ _ _ ltac:(repeat constructor) Hall' Hf' Hlim').
+    assert (Hw : forall (w1 : world) a b, w_set_o OT (w_set_o OT w1 a) b = w_set_o OT w1 b) by reflexivity.
+    rewrite Hw. cbn [w_o w_set_o]. rewrite <- (app_assoc (w_o OT w)). cbn [app map].
+    destruct chain as [|l0 ch0]; cbn [app map]; [reflexivity|]. rewrite <- app_assoc. reflexivity.
+Qed.
+
 Variable Henabled : dc_enabled c = true.
 
-Lemma dzl_headers2 f1 f2 :
-  dzl_gd f1 -> dzl_gd f2 -> (dc_layers c = 0 \/ 2 <= dc_layers c) ->
-  dz_response_headers OT ask c (Some (dzl_name f1 ++ [44; 32]%N ++ dzl_name f2)) (dz_world0 OT []) =
-  mk_dz_tx OT [dzl_fresh f1; dzl_fresh f2] f1 (w_set_o OT (dz_world0 OT []) [dzl_init f1; dzl_init f2]) false.
+(* htp_tx_state_response_headers on "f1, f2, ..., fn" builds exactly one fresh layer and one decoder per format, in order *)
+Lemma dzl_headers_n fs :
+  fs <> [] -> Forall dzl_gd fs -> (dc_layers c = 0 \/ Z.of_nat (length fs) <= dc_layers c) ->
+  dz_response_headers OT ask c (Some (dzl_ce fs)) (dz_world0 OT []) =
+  mk_dz_tx OT (map dzl_fresh fs) (hd 0 fs) (w_set_o OT (dz_world0 OT []) (map dzl_init fs)) false.
 Proof.
-  intros Hg1 Hg2 Hlim. unfold dz_response_headers. rewrite Henabled.
-  set (v := dzl_name f1 ++ [44; 32]%N ++ dzl_name f2).
-  assert (Hsel : (if (cmp_mem_nocasenorzero v s_gzip =? 0) || (cmp_mem_nocasenorzero v s_xgzip =? 0) then (c_dz_COMPRESSION_GZIP, false)
-      else if (cmp_mem_nocasenorzero v s_deflate =? 0) || (cmp_mem_nocasenorzero v s_xdeflate =? 0) then (c_dz_COMPRESSION_DEFLATE, false)
-      else if cmp_mem_nocasenorzero v s_lzma =? 0 then (c_dz_COMPRESSION_LZMA, false)
-      else if cmp_mem_nocasenorzero v s_inflate =? 0 then (c_dz_COMPRESSION_NONE, false)
-      else (c_dz_COMPRESSION_NONE, true)) = (c_dz_COMPRESSION_NONE, true)).
-  { subst v. destruct Hg1 as [-> | ->], Hg2 as [-> | ->]; reflexivity. }
-  rewrite Hsel. cbn [orb]. replace (c_dz_COMPRESSION_NONE =? c_dz_COMPRESSION_GZIP) with false by reflexivity.
-  replace (c_dz_COMPRESSION_NONE =? c_dz_COMPRESSION_DEFLATE) with false by reflexivity.
-  replace (c_dz_COMPRESSION_NONE =? c_dz_COMPRESSION_LZMA) with false by reflexivity. cbn [orb negb].
-  assert (Hlen : exists n, length v = S (S n)) by (subst v; destruct Hg1 as [-> | ->], Hg2 as [-> | ->]; eexists; reflexivity).
-  destruct Hlen as (n & Hlen). rewrite Hlen.
-  rewrite (dzl_tokens_step f1 (S n) v (dzl_name f1) 0 0 [] c_dz_COMPRESSION_NONE (dz_world0 OT [])); auto.
-  2:{ subst v. destruct Hg1 as [-> | ->]; discriminate. }
-  2:{ subst v. destruct Hg1 as [-> | ->], Hg2 as [-> | ->]; reflexivity. }
-  2:{ lia. }
-  cbv zeta.
-  assert (Hlt : (length v <=? S (length (dzl_name f1)))%nat = false) by (subst v; destruct Hg1 as [-> | ->], Hg2 as [-> | ->]; reflexivity).
-  rewrite Hlt.
-  assert (Hsk : skipn (S (length (dzl_name f1))) v = 32%N :: dzl_name f2) by (subst v; destruct Hg1 as [-> | ->], Hg2 as [-> | ->]; reflexivity).
-  rewrite Hsk.
-  rewrite (dzl_tokens_step f2 n (32%N :: dzl_name f2) (dzl_name f2)); auto.
-  2:{ discriminate. }
-  2:{ destruct Hg2 as [-> | ->]; reflexivity. }
-  2:{ destruct Hlim as [H|H]; [left; exact H|right]. destruct (dc_layers c =? 0); cbn [negb]; lia. }
-  cbv zeta. cbn [length]. rewrite Nat.leb_refl. reflexivity.
+  intros Hne Hall Hlim. destruct fs as [|f r]; [congruence|]. inversion Hall as [|? ? Hg Hall']; subst.
+  unfold dz_response_headers. rewrite Henabled. destruct r as [|g r].
+  - (* one format: the single-value case *)
+    assert (Hce : dzl_ce [f] = dzl_name f) by (cbn [dzl_ce map concat]; apply app_nil_r). rewrite Hce.
+    destruct Hg as [-> | ->]; reflexivity.
+  - rewrite dzl_ce_cons. set (tl := dzl_ce (g :: r)).
+    assert (Hsel : forall v, v = dzl_name f ++ [44; 32]%N ++ tl ->
+        (if (cmp_mem_nocasenorzero v s_gzip =? 0) || (cmp_mem_nocasenorzero v s_xgzip =? 0) then (c_dz_COMPRESSION_GZIP, false)
+        else if (cmp_mem_nocasenorzero v s_deflate =? 0) || (cmp_mem_nocasenorzero v s_xdeflate =? 0) then (c_dz_COMPRESSION_DEFLATE, false)
+        else if cmp_mem_nocasenorzero v s_lzma =? 0 then (c_dz_COMPRESSION_LZMA, false)
+        else if cmp_mem_nocasenorzero v s_inflate =? 0 then (c_dz_COMPRESSION_NONE, false)
+        else (c_dz_COMPRESSION_NONE, true)) = (c_dz_COMPRESSION_NONE, true)).
+    { intros v ->. destruct Hg as [-> | ->]; reflexivity. }
+    rewrite (Hsel _ eq_refl). cbn [orb]. replace (c_dz_COMPRESSION_NONE =? c_dz_COMPRESSION_GZIP) with false by reflexivity.
+    replace (c_dz_COMPRESSION_NONE =? c_dz_COMPRESSION_DEFLATE) with false by reflexivity.
+    replace (c_dz_COMPRESSION_NONE =? c_dz_COMPRESSION_LZMA) with false by reflexivity. cbn [orb negb].
+    subst tl. rewrite <- dzl_ce_cons.
+    assert (Hlim0 : dc_layers c = 0 \/ 0 + Z.of_nat (length (f :: g :: r)) <= dc_layers c) by (destruct Hlim as [Hl|Hl]; [left; exact Hl|right; lia]).
+    pose proof (dzl_tokens_all (g :: r) f [] (length (dzl_ce (f :: g :: r))) 0 0 [] c_dz_COMPRESSION_NONE (dz_world0 OT [])
+                  (Forall_nil _) Hall (Nat.le_refl _) Hlim0) as H.
+    cbn [app] in H. rewrite H. reflexivity.
 Qed.
 
 (* ---- n layers: from the chain as built (one fresh layer and one initialised decoder per format, in order) *)
@@ -665,7 +735,26 @@ Proof.
   - apply dzl_CH_initial. exact Hv.
 Qed.
 
-(* ---- two layers, from the Content-Encoding header on *)
+Lemma dzl_valid_gd : forall fs B s q, dzl_valid B fs s q -> Forall dzl_gd fs.
+Proof.
+  induction fs as [|f fs IH]; intros B s q H; [constructor|]. cbn [dzl_valid] in H. destruct H as (Hg & _ & pk & _ & _ & H).
+  constructor; [exact Hg|]. eapply IH; eauto.
+Qed.
+
+(* ---- n layers, from the Content-Encoding header on *)
+Theorem dzl_layers_faithful fs B s chunks :
+  fs <> [] -> (dc_layers c = 0 \/ Z.of_nat (length fs) <= dc_layers c) ->
+  dzl_valid B fs s p -> concat chunks = s ->
+  Forall (fun ch => ch <> [] /\ (length ch <= B)%nat /\ Z.of_nat (length ch) <= c_dz_UINT32_MAX) chunks ->
+  dz_devs (tx_w OT (fst (dz_run OT ask c (Some (dzl_ce fs)) (map (fun ch => (0, Some ch)) chunks ++ [(0, None)]) []))) = p.
+Proof.
+  intros Hfs Hlim Hv Hcat Hall. unfold dz_run. rewrite (dzl_headers_n fs Hfs (dzl_valid_gd _ _ _ _ Hv) Hlim). cbn [fst tx_w].
+  apply (dzl_chain_faithful B fs s chunks); auto.
+  - cbn [tx_cep]. pose proof (dzl_valid_gd _ _ _ _ Hv) as Hg. destruct fs as [|f r]; [congruence|]. inversion Hg as [|? ? [-> | ->] _]; reflexivity.
+  - unfold dz_BW0, dz_world0. wsimpl. auto.
+Qed.
+
+(* ---- two layers *)
 Theorem dzl_two_layers_faithful f1 f2 p1 s chunks :
   dzl_gd f1 -> dzl_gd f2 -> (dc_layers c = 0 \/ 2 <= dc_layers c) ->
   zvalid (zinit (dzl_wb f1)) s p1 -> zvalid (zinit (dzl_wb f2)) p1 p -> s <> [] -> p1 <> [] ->
@@ -673,17 +762,17 @@ Theorem dzl_two_layers_faithful f1 f2 p1 s chunks :
   Forall (fun ch => ch <> [] /\ Z.of_nat (length ch) <= c_dz_UINT32_MAX /\ (length ch + length p1 < dc_fuel c)%nat) chunks ->
   dz_devs (tx_w OT (fst (dz_run OT ask c (Some (dzl_name f1 ++ [44; 32]%N ++ dzl_name f2)) (map (fun ch => (0, Some ch)) chunks ++ [(0, None)]) []))) = p.
 Proof.
-  intros Hg1 Hg2 Hlim Hv1 Hv2 Hs Hp1 Hfu Hcat Hall. unfold dz_run. rewrite (dzl_headers2 f1 f2 Hg1 Hg2 Hlim). cbn [fst tx_w].
+  intros Hg1 Hg2 Hlim Hv1 Hv2 Hs Hp1 Hfu Hcat Hall.
+  replace (dzl_name f1 ++ [44; 32]%N ++ dzl_name f2) with (dzl_ce [f1; f2])
+    by (rewrite dzl_ce_cons; cbn [dzl_ce map concat]; rewrite app_nil_r; reflexivity).
   set (B := list_max (map (@length N) chunks)).
   assert (HB : (B + length p1 < dc_fuel c)%nat).
   { destruct chunks as [|ch0 r0]; [cbn in Hcat; congruence|].
     assert (Hle : (B <= dc_fuel c - length p1 - 1)%nat).
     { subst B. apply list_max_le. apply Forall_map. eapply Forall_impl; [|exact Hall]. cbv beta. intros a (_ & _ & H). lia. }
     inversion Hall as [|? ? (_ & _ & H0) _]; subst. lia. }
-  apply (dzl_chain_faithful B [f1; f2] s chunks); auto.
+  apply (dzl_layers_faithful [f1; f2] B s chunks); auto.
   - discriminate.
-  - cbn [tx_cep]. destruct Hg1 as [-> | ->]; reflexivity.
-  - unfold dz_BW0, dz_world0. wsimpl. auto.
   - cbn [dzl_valid]. csplit; auto. exists p1. csplit; auto. exists p. csplit; auto.
   - assert (Hmax : Forall (fun k => (k <= B)%nat) (map (@length N) chunks)) by (apply list_max_le; subst B; lia).
     rewrite Forall_map in Hmax. rewrite Forall_forall in *. intros ch Hin. destruct (Hall ch Hin) as (H1 & H2 & H3). specialize (Hmax ch Hin). auto.
@@ -735,8 +824,6 @@ Definition dzl_cuts2 (s : bytes) : list (list bytes) :=
   flat_map (fun i => map (fun j => [firstn i s; firstn (j - i) (skipn i s); skipn j s]) (seq (S i) (length s - 1 - i))) (seq 1 (length s - 1)).
 Definition dzl_bytewise (s : bytes) : list bytes := map (fun b => [b]) s.
 Definition dzl_beq (a b : bytes) : bool := (length a =? length b)%nat && forallb (fun xy => (fst xy =? snd xy)%N) (combine a b).
-Definition dzl_ce (fs : list Z) : bytes :=
-  match fs with [] => [] | f :: r => dzl_name f ++ concat (map (fun g => [44; 32]%N ++ dzl_name g) r) end.
 
 Definition dzl_ex_p : bytes := [1;1;1;2;3;3;7]%N.
 Definition dzl_ex_p1 : bytes := dzl_toy_enc dzl_ex_p.     (* 9 bytes *)
@@ -784,16 +871,27 @@ Example dzl_two_layers_buffer_crossing :
            [[s]; dzl_bytewise s; [firstn 33 s; skipn 33 s]]) = true.
 Proof. vm_cast_no_check (eq_refl true). Qed.
 
-(* three layers (layer limit off): the n-layer theorem's conclusion on the chain the headers build *)
+(* three layers with layer limit 3, four layers with layer limit 4 (the token loop advances from the start of the token:
+   "gzip, gzip, gzip, gzip" builds four layers): chain length and payload, whole / bytewise / every single cut *)
 Example dzl_three_layers_all_cuts :
   (let s3 := dzl_toy_enc dzl_ex_s in
    let ce := dzl_ce [c_dz_COMPRESSION_GZIP; c_dz_COMPRESSION_DEFLATE; c_dz_COMPRESSION_GZIP] in
-   (snd (dzl_ex_run (dzl_ex_cfg 9000 0) ce [s3]) =? 3)%nat &&
-   forallb (fun chunks => dzl_beq (fst (dzl_ex_run (dzl_ex_cfg 9000 0) ce chunks)) dzl_ex_p)
+   (snd (dzl_ex_run (dzl_ex_cfg 9000 3) ce [s3]) =? 3)%nat &&
+   forallb (fun chunks => dzl_beq (fst (dzl_ex_run (dzl_ex_cfg 9000 3) ce chunks)) dzl_ex_p)
            ([s3] :: dzl_bytewise s3 :: dzl_cuts1 s3)) = true.
+Proof. vm_cast_no_check (eq_refl true). Qed.
+
+Example dzl_four_layers_limit_four :
+  (let s4 := dzl_toy_enc (dzl_toy_enc dzl_ex_s) in
+   let ce := dzl_ce [c_dz_COMPRESSION_GZIP; c_dz_COMPRESSION_GZIP; c_dz_COMPRESSION_GZIP; c_dz_COMPRESSION_GZIP] in
+   dzl_beq ce (dz_str [103;122;105;112;44;32;103;122;105;112;44;32;103;122;105;112;44;32;103;122;105;112]%nat) &&
+   (snd (dzl_ex_run (dzl_ex_cfg 9000 4) ce [s4]) =? 4)%nat &&
+   forallb (fun chunks => dzl_beq (fst (dzl_ex_run (dzl_ex_cfg 9000 4) ce chunks)) dzl_ex_p)
+           ([s4] :: dzl_bytewise s4 :: dzl_cuts1 s4)) = true.
 Proof. vm_cast_no_check (eq_refl true). Qed.
 
 (* ================================================================== final theorems of this file *)
 Print Assumptions dzl_chain_faithful.
+Print Assumptions dzl_layers_faithful.
 Print Assumptions dzl_two_layers_faithful.
 Print Assumptions dzl_toy_contract.
